@@ -26,9 +26,10 @@ TRUSTED = ["tools/props/c10.py translate(): regex extraction of SEND_BLOCK_SIZE 
 ASSUMPTIONS = ["send() on a blocking socket accepts a non-empty prefix of the buffer or fails; read() returns a non-empty prefix of "
                "what the peer sent, or 0 at EOF (the partial-transfer schedules of partial_io_complete)",
                "FIONREAD reports between 1 and all of the unread bytes when some are queued (Inp.available)",
-               "TCP delivers the bytes of a connection in order, without loss or duplication — except after the server gives a "
-               "connection up with unread input (refused framing): the reset TCP then sends may destroy answers the peer has not yet "
-               "read; the model says what the server wrote, and refused framing is generated only where nothing is pending (sequential "
+               "TCP delivers the bytes of a connection in order, without loss or duplication — except after the READER gives a "
+               "connection up with unread input (refused framing: a plain close inside readHeaders/readBody): the reset TCP then sends "
+               "may destroy answers the peer has not yet read (an ordinary end of a connection is a send-side shutdown first since "
+               "e887919 / 7f6f841 and loses nothing); the model says what the server wrote, and refused framing is generated only where nothing is pending (sequential "
                "raw peers without Expect)",
                "timing: every byte of a message arrives within the library's waits (Socket::readLine waitInput 60 s, readBody waitInput "
                "10 s per turn, serve() waitData 5 s) and a kept-alive connection is used for less than 10 s in total: HttpServer::serve "
@@ -744,6 +745,25 @@ def gen_round7(rng):
     return out
 
 
+def gen_round8(rng):
+    """the last response on a connection (Connection: close, HTTP/1.0) with a length, request bytes still unread behind the
+    request (a CR LF behind a POST body, a pipelined request): the server's close must not cut it — MB-sized bodies with a
+    prompt reader, and a body inside the 300 KiB range with a reader that starts 0.3 s late (raw mode d)"""
+    out = []
+    post = rng.choice([b"POST /big HTTP/1.0\r\nHost: example.test\r\nContent-Length: 5\r\n\r\n",
+                       b"POST /big HTTP/1.1\r\nHost: example.test\r\nConnection: close\r\nContent-Length: 5\r\n\r\n"])
+    n = rng.choice([200000, 307200, 300 * KB])
+    kind = rng.choice([("b", []), ("f", [hexs(b"bin")])])
+    out.append("raw d 1 %s x68656c6c6f0d0a cl - %s" % (hexs(post), plan(200, rheaders(rng, 1), kind[0], gspec(rng, n, 0), *kind[1])))
+    m = rng.choice([2000000, 3000000])
+    kind = rng.choice([("b", []), ("f", [hexs(b"bin")])])
+    out.append("raw s 1 %s x68656c6c6f0d0a cl - %s" % (hexs(post), plan(200, [], kind[0], gspec(rng, m, 0), *kind[1])))
+    first = b"GET /big HTTP/1.1\r\nHost: example.test\r\nConnection: close\r\n\r\n"
+    h2 = b"GET /x HTTP/1.1\r\nHost: example.test\r\n\r\n"
+    out.append("raw p 2 %s - cl - %s %s - cl - %s" % (hexs(first), plan(200, [], "b", gspec(rng, m, 0)), hexs(h2), plan(200, [], "t", gspec(rng, 4, 2))))
+    return out
+
+
 def gen_expect(rng):
     """Expect: 100-continue: the server's interim answer must not be taken for the response"""
     out = []
@@ -870,6 +890,8 @@ def gen(rng, tier):
         cases += [[l] for l in gen_round6(rng)]
     for _ in range(2 if quick else 12):
         cases += [[l] for l in gen_round7(rng)]
+    for _ in range(1 if quick else 8):
+        cases += [[l] for l in gen_round8(rng)]
     cases += gen_long_lines(rng)
     for _ in range(4 if quick else 40):
         cases.append(gen_upload(rng))
@@ -1069,8 +1091,10 @@ LEVEL_NOTE = ("Trusted: Lean kernel; the regex translator of the two block-size 
               "model, serveStep): chunk-size lines of 9 digits are generated (framing flag q) and compared; Content-Length with a sign, "
               "other characters or more than 10 digits and chunk-size lines with a sign are not generated here (C09 does). Hypotheses of the theorems: as stated above; user headers name neither Content-Length nor "
               "Transfer-Encoding; sizes below 2^31 (int). Deviation of asl recorded, not a defect of this property as worded: truncated "
-              "requests are dropped. Known findings: range-end-zero, chunked-stream-not-terminated. Twenty-nine defects of this property were "
-              "repaired (fixed: lines); twenty-four of them were found by audits / defect hunts, not by this check, and the check was "
+              "requests are dropped. Known findings: range-end-zero, chunked-stream-not-terminated. Thirty defects of this property were "
+              "repaired (fixed: lines; the eighth round's: a response with a length, last on its connection, cut by the reset of the "
+              "server's close — raw mode d, a peer that reads 0.3 s late, and MB-sized bodies behind a trailing CR LF / a pipelined "
+              "request in every quick run); twenty-five of them were found by audits / defect hunts, not by this check, and the check was "
               "extended until it catches each on the pre-fix tree with a concrete replay (seventh round: the close behind an HTTP/1.0 "
               "answer written in pieces reset the connection and cut the body when request bytes were unread — 2 to 3 MB answers to "
               "pipelined / CR-LF-trailed HTTP/1.0 requests in every quick run, compared byte for byte (length and digest); a response "
